@@ -130,4 +130,7 @@ class RequestChannelCommon(StreamHandler, Publisher, Subscription, Disposable, m
             self._sending_done.set()
 
     def request(self, n: int):
+        if self._received_complete:
+            return  # the inbound direction was cancelled or has ended: Subscription.request() is a no-op
+
         self.send_request_n(n)
